@@ -273,7 +273,7 @@ const rule = "API descriptions with 1-3 operations (pairwise different methods a
 // Props lists the generated checks of C04.
 func Props() []kit.Runner {
 	return []kit.Runner{
-		kit.Prop[Case]{ID: "C04", Name: "roundtrip", Rule: rule, Quick: 2000, Thorough: 12000,
+		kit.Prop[Case]{ID: "C04", Name: "roundtrip", Rule: rule, Quick: 2000, Thorough: 10000,
 			Gen: Gen, Check: Check, Classify: Classify, Exclude: Exclude, SampleLimit: 2500},
 		kit.Prop[Case]{ID: "C04", Name: "bigfile", Rule: "one multipart upload operation with 1-2 files of 1-33 MiB (around the server's 32 MiB in-memory limit) plus form fields, with and without a body-reading auth writer; same oracle as roundtrip; every case is non-trivial (a file is present)",
 			Quick: 4, Thorough: 6, Gen: GenBig, Check: Check, Classify: Classify, SampleLimit: 1200},
